@@ -6,7 +6,7 @@ LEVEL = "model_checking"
 
 def run(ctx, res):
     ctx.build()
-    res.rule = ("F: TLC enumerates the bounded grammar of Gen_Find (26 families, 221 444 patterns over letters a,b) and predicts "
+    res.rule = ("F: TLC enumerates the bounded grammar of Gen_Find (27 families, 222 944 patterns over letters a,b; quantifier operands may be nullable) and predicts "
                 "RegexSem.Find for every input string over the alphabet up to the length bound and every start offset; the "
                 "replayer compares index, length and complete capture lists. B: random source ASTs of the C01 fragment "
                 "(depth<=4, node budget) x option sets from {i,m,s,n,x,RE2} x pattern-directed inputs (<=12 runes; newlines, "
@@ -16,10 +16,13 @@ def run(ctx, res):
     if ctx.tier == "quick":
         off = ctx.seed % 16
         findgen.gen_find(ctx, res, findgen.ALL_FAMILIES, [], "net", False, [97, 98, 10], 3, 16, off, "F-net")
+        # the small families whose interactions need a fourth input character (a loop, what follows it, and the rest)
+        findgen.gen_find(ctx, res, ["atomseq", "nlend"], [], "net", False, [97, 98, 10], 4, 2, ctx.seed % 2, "F-net-len4")
         findobs.obs_find(ctx, res, ["-n", "1200", "-stream", "10", "-rtl", "no"], "B-ltr")
     else:
         findgen.gen_find(ctx, res, findgen.ALL_FAMILIES, [], "net", False, [97, 98, 10], 3, 1, 0, "F-net-abn3")
         findgen.gen_find(ctx, res, findgen.ALL_FAMILIES, [], "net", False, [97, 98], 5, 3, ctx.seed % 3, "F-net-ab5")
+        findgen.gen_find(ctx, res, ["atomseq", "nlend", "atom", "nested"], [], "net", False, [97, 98, 10], 4, 1, 0, "F-net-len4")
         findgen.gen_find(ctx, res, findgen.ALL_FAMILIES, ["i", "m"], "net", False, [97, 66, 10], 3, 2, ctx.seed % 2, "F-im")
         findgen.gen_find(ctx, res, findgen.ALL_FAMILIES, ["s", "x"], "net", False, [97, 98, 10], 3, 2, (ctx.seed + 1) % 2, "F-sx")
         findgen.gen_find(ctx, res, findgen.ALL_FAMILIES, ["n"], "net", False, [97, 98, 10], 3, 3, ctx.seed % 3, "F-n")
